@@ -87,22 +87,58 @@ def gen_case(rng, is_fill=None, table=None):
             'tail': tail}
 
 
-def run_impl(case):
-    '''('err', 1) | ('ok', tuple) ; other exceptions propagate.'''
+class HelperMissing(Exception):
+    '''The helper-level entry used by a tie (a method other than the ones the
+    anchors name, or the internal attributes a bare ParseMCNPCell object
+    needs) is not there any more: the helper-level tie is skipped, the same
+    code is exercised through the public route (public_cell_check, sweep).'''
+
+
+def stub_parser(table):
+    '''A ParseMCNPCell object without a deck behind it.  This relies on the
+    names of two internal attributes; when a rewrite of /repo changes them the
+    calls below raise AttributeError on the stub, which is turned into
+    HelperMissing (never into a verdict).'''
     from t4_geom_convert.Kernel.FileHandlers.Parser.ParseMCNPCell import \
         ParseMCNPCell
     obj = ParseMCNPCell.__new__(ParseMCNPCell)
-    obj.transforms = {k: list(v) for k, v in case['table'].items()}
+    obj.transforms = {k: list(v) for k, v in table.items()}
+    obj.importances = []
+    obj.lattice_params = {}
+    return obj
+
+
+def _stub_call(obj, name, *args):
+    method = getattr(obj, name, None)
+    if method is None:
+        raise HelperMissing(f'helper ParseMCNPCell.{name} not present')
+    try:
+        return method(*args)
+    except AttributeError as exc:
+        if "'ParseMCNPCell' object has no attribute" in str(exc):
+            raise HelperMissing('bare ParseMCNPCell object lacks an internal '
+                                f'attribute: {exc}') from None
+        raise
+
+
+def run_impl(case):
+    '''('err', 1) | ('ok', tuple) ; HelperMissing when the helper-level entry
+    is gone; other exceptions propagate.'''
+    obj = stub_parser(case['table'])
     kw_list = list(reversed(case['tokens']))
     name = ('*' if case['star'] else '') + ('fill' if case['is_fill']
                                             else 'trcl')
     try:
         if case['is_fill']:
-            bounds, univ, params = obj.parse_fill_kw(name, kw_list)
+            # parse_fill_kw is named by the anchors: if it is gone the tie is
+            # legitimately undischarged (AttributeError propagates)
+            obj.parse_fill_kw               # noqa: B018
+            bounds, univ, params = _stub_call(obj, 'parse_fill_kw', name,
+                                              kw_list)
             if bounds is not None or univ != case['univ']:
                 raise AssertionError(f'universe {univ!r}, bounds {bounds!r}')
         else:
-            params = obj.parse_trcl_kw(name, kw_list)
+            params = _stub_call(obj, 'parse_trcl_kw', name, kw_list)
     except KeyError:
         return ('err', 1)
     if list(reversed(kw_list)) != case['tail']:
@@ -180,15 +216,10 @@ def gen_cell_case(rng):
 
 def run_cell_impl(case):
     """('err', 1) | ('ok', (universe, fillid, filltr, trcl list))"""
-    from t4_geom_convert.Kernel.FileHandlers.Parser.ParseMCNPCell import \
-        ParseMCNPCell
-    obj = ParseMCNPCell.__new__(ParseMCNPCell)
-    obj.transforms = {k: list(v) for k, v in case['table'].items()}
-    obj.importances = []
-    obj.lattice_params = {}
+    obj = stub_parser(case['table'])
     try:
-        cell = obj.parse_one_cell_worker(0, None, ('1 -1.0', '-1',
-                                                   case['option']))
+        cell = _stub_call(obj, 'parse_one_cell_worker', 0, None,
+                          ('1 -1.0', '-1', case['option']))
     except KeyError:
         return ('err', 1)
     return ('ok', (cell.universe, cell.fillid, cell.filltr,
@@ -237,3 +268,78 @@ def coq_cell_case(case, outcome):
     u = 'None' if case['u'] is None else f'(Some {cz(case["u"])})'
     return (f'(mkCk {table} {u} {kw(case["fill"], True)} '
             f'{kw(case["trcl"], False)} {clist(norms)} {out})')
+
+
+# ---- the same cell cards through the PUBLIC route: a deck text, the MIP parser,
+# ParseMCNPCell(parser, None, {}).parse() -----------------------------------------
+
+def expected_tuple(sub, table):
+    '''Independent reading of a FILL / TRCL keyword: the 12 numbers written
+    (None = no transformation, 'KeyError' = unknown TR number).'''
+    if sub is None:
+        return None
+    kind = sub['kind']
+    if kind == 'none':
+        # a bare starred TRCL goes through normalize_transform([])
+        if sub['star'] and not sub['is_fill']:
+            return [0., 0., 0., 1., 0., 0., 0., 1., 0., 0., 0., 1.]
+        return []
+    if kind in ('three', 'star3', 'null3', 'star_null3'):
+        return list(sub['params']) + [1., 0., 0., 0., 1., 0., 0., 0., 1.]
+    if kind == 'num':
+        return list(table[int(sub['params'][0])][:12])
+    if kind == 'num_missing':
+        return 'KeyError'
+    return list(sub['truth'])
+
+
+def public_cell_check(case):
+    '''Returns None when the CellMCNP built by the public route carries the
+    universe / fillid / fill transformation / TRCL written on the card, else a
+    description of the difference.'''
+    import contextlib
+    import io
+    import impl
+    from t4_geom_convert.Kernel.FileHandlers.Parser.ParseMCNPCell import \
+        ParseMCNPCell
+    lines = ['c05 cell card through the public route',
+             '1 1 -1.0 -1 ' + case['option'], '2 0 1 imp:n=0', '', '1 so 5.0', '']
+    for n, entries in sorted(case['table'].items()):
+        lines.append(f'tr{n} ' + ' '.join(repr(float(v)) for v in entries))
+    lines += ['m1 1001 1.0', '']
+    want_fill = expected_tuple(case['fill'], case['table'])
+    want_trcl = expected_tuple(case['trcl'], case['table'])
+    try:
+        with impl.mip_parser('\n'.join(lines) + '\n') as parser:
+            with contextlib.redirect_stdout(io.StringIO()):
+                cells, _skipped = ParseMCNPCell(parser, None, {}).parse()
+    except KeyError:
+        if 'KeyError' in (want_fill, want_trcl):
+            return None
+        return 'KeyError'
+    if 'KeyError' in (want_fill, want_trcl):
+        return 'an unknown TR number was accepted'
+    cell = cells[1]
+
+    def close(got, want):
+        return (len(got) == len(want)
+                and all(abs(float(a) - float(b)) < 1e-9
+                        for a, b in zip(got, want)))
+    univ = 0 if case['u'] is None else abs(case['u'])
+    if int(cell.universe) != univ:
+        return f'universe {cell.universe!r}, written {univ}'
+    if case['fill'] is None:
+        if cell.fillid is not None:
+            return f'fillid {cell.fillid!r} without FILL'
+    else:
+        if cell.fillid is None or int(cell.fillid) != case['fill']['univ']:
+            return f'fillid {cell.fillid!r}, written {case["fill"]["univ"]}'
+        if not close(list(cell.filltr or ()), want_fill):
+            return (f'fill transformation {cell.filltr!r}, written '
+                    f'{want_fill!r}')
+    got_trcl = [list(t) for t in cell.trcl]
+    want_list = [] if not want_trcl else [want_trcl]
+    if len(got_trcl) != len(want_list) or any(
+            not close(g, w) for g, w in zip(got_trcl, want_list)):
+        return f'TRCL {cell.trcl!r}, written {want_list!r}'
+    return None
